@@ -32,6 +32,10 @@ CLAIMED["C16"] = dict(engine="E1", technique="symbolic execution of the real met
     text="One-shot: BER/BLER/benchmark helpers equal the exact fraction for all bit tensors of the stated shapes, symmetric, zero iff equal, BER <= BLER <= min(1,B*BER). Streaming: for every history over {update(b0..b2), compute, reset} up to the stated length with fully symbolic batch contents, every compute() equals the one-shot value on the data since the last reset.",
     note="History structures are enumerated (a stated bound) while all data is symbolic; results are float32 tensors, so equality is asserted within 2^-17 relative to the count (far below 1/N).",
     ref="DESIGN.md §4 C16")
+CLAIMED["C11"] = dict(engine="E1", technique="symbolic execution of the real polar encoder / SC / polar-BP decoders on GF(2)-affine bits and symbolic real LLRs; z3 decides equality with the Kronecker-power reference, with the message (clean LLRs of symbolic magnitude) and with a textbook SC recursion written over the same terms",
+    text="Encoder: all 2^N inputs of polar_transform and all messages of a (2,k) batch per (k,N,frozen value,interleave,mask) configuration in one query each; information set compared with an independent reading of the 5G ranking. Decoders: clean LLRs with symbolic magnitudes in [0.5,50] decode to the message; SC equals the textbook recursion for every tie-free real LLR vector.",
+    note="Floats of symbolic quantities are reals; exact-zero decision LLRs are excluded (recorded assumption: the code maps sign 0 to 0.5); tanh/atanh are uninterpreted functions with sound axioms, so sum-product items are stretch. Bounds: encoder N <= 64 (1024 thorough), SC N <= 8 (16 stretch), BP N <= 4 (8 stretch), iterations <= 2 (3).",
+    ref="DESIGN.md §4 C11")
 NOT_YET = {}
 
 PENDING_REASON = "check not built yet in this round (planned: see DESIGN.md §8); not claimed until its check exists"
